@@ -1566,6 +1566,15 @@ class WcParse(Generic[AnyStr]):
                 c = '/'
                 while c == '/':
                     c = next(i)
+                    if c == '\\':
+                        # An escaped separator (`\/`) is a separator as well
+                        try:
+                            c = next(i)
+                        except StopIteration:
+                            i.rewind(1)
+                            raise
+                        if c != '/':
+                            i.rewind(1)
                 i.rewind(1)
         except StopIteration:
             pass
